@@ -85,6 +85,11 @@ func (ex *Exec) doCall(st *State, fr *Frame, ins ssa.Instruction, c *ssa.CallCom
 			for i, r := range rets {
 				if r.Kind == VTerm {
 					st.setHeap(fmt.Sprintf("%s.%d", base, i), r.T)
+					// lastbytes: the content of a []byte result at the return
+					if sl, ok := r.Ty.Underlying().(*types.Slice); ok && r.T.Sort == SortSlice && sortOf(sl.Elem()) == SortInt {
+						arr := Select(st.heap(memName(SortInt), memSort(SortInt)), SlRg(r.T))
+						st.setHeap(fmt.Sprintf("%s.%d.bytes", base, i), BOf(arr, SlOff(r.T), SlLen(r.T)))
+					}
 				}
 			}
 			k1(st, rets)
@@ -2000,7 +2005,8 @@ func (ex *Exec) errSite(st *State, fr *Frame, ins ssa.Instruction, c *ssa.CallCo
 
 // linkPureArgs: a callee that takes a function-valued parameter declared
 // `pure` speaks about it through apply(f, k, x). When the argument is a method
-// value recv.m whose method m has a contract with `modifies nothing`, the
+// value recv.m whose method m has a contract with `modifies nothing` (or only
+// ghost globals, which are then havocked at this call), the
 // method's postconditions are made available for every argument x:
 //   forall x. requires_m(recv, x) ==> ensures_m(recv, x, apply(f, *, x))
 // (the obligations themselves are discharged in m's own verification).
@@ -2030,8 +2036,31 @@ func (ex *Exec) linkPureArgs(st *State, fr *Frame, ct *Contract, key string, arg
 			continue
 		}
 		mc := ex.db.Contracts[m.String()]
-		if mc == nil || !mc.HasMod || len(mc.Modifies) != 0 || len(m.Params) != 2 {
+		if mc == nil || !mc.HasMod || len(m.Params) != 2 {
 			continue
+		}
+		// the method may only write ghost globals; those are havocked here, at
+		// the call that may run it (its real results are a function of the
+		// receiver, the argument and the unchanged heap)
+		ghostOnly := true
+		for _, mm := range mc.Modifies {
+			mm = strings.TrimSpace(mm)
+			if !strings.HasPrefix(mm, "$") || strings.ContainsAny(mm, ".[ ") {
+				ghostOnly = false
+			}
+		}
+		if !ghostOnly {
+			continue
+		}
+		for _, mm := range mc.Modifies {
+			mm = strings.TrimSpace(mm)
+			hn := "g|" + mm
+			if cur, ok := st.heaps[hn]; ok {
+				st.setHeap(hn, st.fresh("purehavoc", cur.Sort))
+			} else if gd, ok := ex.db.Ghosts[mm]; ok && gd.Kind == "global" {
+				gs := gd.Sort
+				st.setHeap(hn, st.fresh("purehavoc", gs))
+			}
 		}
 		ft, ok := ex.closureTerm(st, a)
 		if !ok {
@@ -2106,7 +2135,7 @@ func (ex *Exec) linkPureArgs(st *State, fr *Frame, ct *Contract, key string, arg
 	}
 }
 
-var lastretRe = regexp.MustCompile(`lastret\("([^"]+)",\s*(\d+),\s*(\d+)\)`)
+var lastretRe = regexp.MustCompile(`last(?:ret|bytes)\("([^"]+)",\s*(\d+),\s*(\d+)\)`)
 
 // retSites: call sites whose results the contract mentions through
 // lastret("callee", k, i): result i of the latest execution of the k-th call
@@ -2193,6 +2222,39 @@ func (ex *Exec) retSite(st *State, fr *Frame, ins ssa.Instruction, c *ssa.CallCo
 
 // siteResultType finds the static type of result i of the k-th call site of
 // name in the function under verification.
+// siteExists: does the function under verification (or one of its closures)
+// have a k-th call site of name? A site ghost that names no site is a contract
+// that no longer binds to the code, not a vacuously true clause.
+func (ex *Exec) siteExists(name string, k int) bool {
+	found := false
+	var visit func(fn *ssa.Function)
+	visit = func(fn *ssa.Function) {
+		fr := &Frame{fn: fn}
+		for _, b := range fn.Blocks {
+			for _, ins := range b.Instrs {
+				var cc *ssa.CallCommon
+				switch x := ins.(type) {
+				case *ssa.Call:
+					cc = &x.Call
+				case *ssa.Defer:
+					cc = &x.Call
+				}
+				if cc == nil {
+					continue
+				}
+				if n, ord := ex.matchSite(fr, nil, ins, cc, map[string]bool{name + "#" + fmt.Sprint(k): true}); n != "" && ord == k {
+					found = true
+				}
+			}
+		}
+		for _, af := range fn.AnonFuncs {
+			visit(af)
+		}
+	}
+	visit(ex.top)
+	return found
+}
+
 func (ex *Exec) siteResultType(name string, k, i int) types.Type {
 	var found types.Type
 	var visit func(fn *ssa.Function)
